@@ -311,6 +311,13 @@ def gen_client_case(seed):
     elif kind == "pasv":
         case["verb"] = rnd.choice(["epsv", "pasv"])
         case["payload"] = rnd.choice(["", "()", "(|||)", "(|||x|)", "(|||99999999|)", "(|||-1|)", "(1,2,3)", "(1,2,3,4,5,6,7)", "(a,b,c,d,e,f)", "(256,0,0,1,1,1)", "(1,2,3,4,999,999)", "no parens at all", "(|||40001|) (|||", "((((", "(|1|2|3|)", "(127,0,0,1,156,65)", "(|||40001|)"])
+        x = rnd.random()
+        if x < 0.25:
+            # the closing parenthesis lost and / or a number grown far beyond its range
+            run = rnd.choice("0123456789") * rnd.choice([12, 24, 40, 80, 400])
+            case["payload"] = rnd.choice(["(127,0,0,1,156," + run, "(127,0,0,1,156,65", "(127,0,0,1," + run + ",65", "entering passive mode (127,0,0,1,156," + run + "x)", "(" + run, "(|||" + run, "(|||40001", "(|||" + run + "|", "(" + ",".join([run] * 6) + ")", "(|||" + run + "|)", "(127,0,0,1,156,65) (" + run])
+        elif x < 0.5:
+            case["payload"] = mutate(rnd, rnd.choice(["entering passive mode (127,0,0,1,156,65).", "listen socket created (|||40001|)", "=127,0,0,1,156,65"])).decode("latin-1")
     elif kind == "pwd":
         case["payload"] = rnd.choice(["", '"', '""', '"/a', '/a"', "no quotes", '"/a""b"', '"' * 99, '"/\x00"', '"//"', '"relative"', '"/a" extra', '""" """'])
     elif kind == "listing":
